@@ -158,6 +158,35 @@ fn('TreeImputerObj._sample', None, self_cls='TreeImputerObj', params={'feature_n
    assume_only=True, modifies=[], ret=TVal, ensures={'args': lambda c: c.a_new.x_i.t == c.a.x_i.t},
    notes="assumed: the tree's own sample (class drawn from predict_proba_one / normal around the leaf statistics); touches river internals")
 
+def _points_have(c_storage, f_pred):
+    """every point held in a leaf reservoir of a feature f with f_pred(f) has that feature (reservoirs hold COMPLETE points)"""
+    so = c_storage
+    return forall_key(lambda f: forall_key(lambda l: implies(
+        land(f_pred(f), so.data_reservoirs.dom[f], ResDict.dom(so.data_reservoirs.val[f])[l]),
+        forall_int(lambda i: implies(
+            land(0 <= i, i < ObjView(sym.SObj('Storage', term=ResDict.val(so.data_reservoirs.val[f])[l]))._storage_x.n),
+            InstT.dom(ObjView(sym.SObj('Storage', term=ResDict.val(so.data_reservoirs.val[f])[l]))._storage_x.arr[i])[f])))))
+
+
+def _routed_leaf_imp(c):
+    so = c.old.storage_object
+    return PATH(ObjView(sym.SObj('RiverTree', term=so._storage_x.val[c.a.feature_name]))._root, c.a.x_i.t)
+
+
+def _sample_calls(c):
+    return [e for e in c.events if e['kind'] == 'call' and e['callee'] == 'TreeImputerObj._sample']
+
+
+def _from_reservoir(c):
+    so = c.old.storage_object
+    leaf = _routed_leaf_imp(c)
+    rd = so.data_reservoirs.val[c.a.feature_name]
+    R = ObjView(sym.SObj('Storage', term=ResDict.val(rd)[leaf]))._storage_x
+    return implies(ResDict.dom(rd)[leaf], land(
+        len(_sample_calls(c)) == 0,
+        exists_int(lambda i: land(0 <= i, i < R.n, c.res == InstT.val(R.arr[i])[c.a.feature_name]))))
+
+
 fn('TreeImputerObj._sample_from_storages', FI, src_cls='TreeImputer', self_cls='TreeImputerObj',
    params={'feature_name': TKey, 'x_i': InstT, 'n_samples': TInt}, modifies=[], ret=TVal,
    requires={'known_feature': lambda c: land(c.old.storage_object.data_reservoirs.dom[c.a.feature_name],
@@ -170,12 +199,17 @@ fn('TreeImputerObj._sample_from_storages', FI, src_cls='TreeImputer', self_cls='
              # every existing leaf reservoir holds at least one point (TreeStorage fills a reservoir right after creating it)
              'reservoirs_nonempty': lambda c: forall_key(lambda f: forall_key(lambda l: implies(
                  land(c.old.storage_object.data_reservoirs.dom[f], ResDict.dom(c.old.storage_object.data_reservoirs.val[f])[l]),
-                 ObjView(sym.SObj('Storage', term=ResDict.val(c.old.storage_object.data_reservoirs.val[f])[l]))._storage_x.n >= 1)))},
+                 ObjView(sym.SObj('Storage', term=ResDict.val(c.old.storage_object.data_reservoirs.val[f])[l]))._storage_x.n >= 1))),
+             # ... of complete data points
+             'points_complete': lambda c: _points_have(c.old.storage_object, lambda f: f == c.a.feature_name)},
    body_ensures={
        # the index into the leaf reservoir is drawn over its full range
        'full_range_index': lambda c: land(*[land(e['arg'][0] == 0) for e in c.events if e.get('prim') == 'random.randint']),
    },
-   ensures={'args': lambda c: c.a_new.x_i.t == c.a.x_i.t})
+   ensures={'args': lambda c: c.a_new.x_i.t == c.a.x_i.t,
+            # the routed leaf has a reservoir => the value is that feature's value in one of ITS points, the tree's own
+            # sample is not used
+            'from_reservoir': _from_reservoir})
 
 for variant, fst in (('', TSet(TKey)), ('#list', KeyList)):
     fn('TreeImputer.impute' + variant, FI, src_name='impute', self_cls='TreeImputerObj',
@@ -184,6 +218,7 @@ for variant, fst in (('', TSet(TKey)), ('#list', KeyList)):
                  'reservoirs_nonempty': lambda c: forall_key(lambda f: forall_key(lambda l: implies(
                      land(c.old.storage_object.data_reservoirs.dom[f], ResDict.dom(c.old.storage_object.data_reservoirs.val[f])[l]),
                      ObjView(sym.SObj('Storage', term=ResDict.val(c.old.storage_object.data_reservoirs.val[f])[l]))._storage_x.n >= 1))),
+                 'points_complete': lambda c: _points_have(c.old.storage_object, lambda f: im.in_subset(c.a.feature_subset, f)),
                  'known_features': lambda c: forall_key(lambda f: implies(im.in_subset(c.a.feature_subset, f), land(
                      c.old.storage_object.data_reservoirs.dom[f], c.old.storage_object._storage_x.dom[f],
                      lor(in_names(c.old.storage_object.cat_feature_names, f), in_names(c.old.storage_object.num_feature_names, f))))),
@@ -191,7 +226,7 @@ for variant, fst in (('', TSet(TKey)), ('#list', KeyList)):
                                                                            in_names(c.old.storage_object.num_feature_names, f)),
                                                                        c.old.storage_object._storage_x.dom[f]))},
        ret=PredList, modifies=[], local_types={'predictions': PredList, 'sampled_values': InstT},
-       ghost_out={'zs': (XList, lambda c: c.run.last_loop.g.zs.t)},
+       ghost_out={'zs': (XList, lambda c: c.run.last_loop.g.zs.t if c.run.last_loop is not None else XList.empty())},
        ensures={
            'count': lambda c: c.res.n == c.a.n_samples,
            # only the requested features differ from the explained instance
